@@ -85,6 +85,7 @@ Line ==
                /\ (~Cooked /\ Proto \in {"xreq", "xsurveyor"}) => e.hl = 4
                /\ (~Cooked /\ Proto \in {"xpair", "xpull", "xsub"}) => e.hl = 0
           /\ res' = [res EXCEPT ![e.th] = "none"] /\ UNCHANGED <<vars, got, pend>>
+     [] e.k = "setrq" -> AtNow /\ SetRQ(e.n) /\ UNCH_T
      [] e.k = "padd" ->
           \* the protocol is being told of the pipe; its verdict is a function of its state
           AtNow /\ (\E ok \in BOOLEAN : AddPipe(e.p, ok)) /\ UNCH_T
